@@ -38,6 +38,8 @@ PROPS = {
     "C13": ("storewalk", 16, 600, 3600),
     "C05": ("crashwalk", 16, 600, 3600),
     "C17": ("crashwalk", 16, 600, 3600),
+    "C06": ("netwalk", 16, 900, 3600),
+    "C07": ("netwalk", 16, 600, 3600),
     "C19": ("domwalk", 16, 300, 7200),
     "C20": ("domwalk", 8, 300, 600),
     "C14": ("domwalk", 16, 600, 3600),
@@ -80,7 +82,9 @@ def make_overlay(extra_replace=None, tag=""):
                     continue
                 spec = json.load(open(src))
                 target = os.path.join(REPO, spec["file"])
-                text = open(target).read()
+                # a mutant / candidate fix of the same file is rewritten on top of its text
+                base = (extra_replace or {}).get(spec["file"], target)
+                text = open(base).read()
                 for old, new in spec["subs"]:
                     if old not in text:
                         raise SystemExit("overlay rewrite %s: anchor %r not found in %s" % (f, old, target))
@@ -95,7 +99,7 @@ def make_overlay(extra_replace=None, tag=""):
                 dst = os.path.join(REPO, "verifh", rel, f)
             rep[dst] = src
     for k, v in (extra_replace or {}).items():
-        rep[os.path.join(REPO, k)] = v
+        rep.setdefault(os.path.join(REPO, k), v)
     path = os.path.join(BUILD, "overlay%s.json" % tag)
     json.dump({"Replace": rep}, open(path, "w"), indent=1)
     return path
